@@ -129,6 +129,21 @@ def impl(case):
                 t = case["then"]
                 c.request(t["method"], t["url"], headers={n: v for n, v in t["headers"]})
                 c.getresponse()
+            elif case.get("then"):
+                # the same through a pool / a manager: whatever object carried the failed call, the next call writes its own request only
+                t = case["then"]
+                if case["level"] == 2:
+                    p = HTTPConnectionPool("h.example", 80, maxsize=1)
+                    call = lambda m, u, h, **k: p.urlopen(m, u, headers=h, retries=False, redirect=False, **k)
+                else:
+                    pm = urllib3.PoolManager(maxsize=1)
+                    call = lambda m, u, h, **k: pm.request(m, "http://h.example" + u, headers=h, retries=False, redirect=False, **k)
+                try:
+                    call(case["method"], case["url"], headers, **kw)
+                except (ValueError, TypeError, http.client.HTTPException, urllib3.exceptions.HTTPError):
+                    pass
+                del sent[:]
+                call(t["method"], t["url"], {n: v for n, v in t["headers"]})
             elif case["level"] == 1:
                 c = HTTPConnection("h.example", 80)
                 c.request(case["method"], case["url"], headers=headers, **kw)
@@ -384,7 +399,7 @@ def oracle_tunnel(case, obs, sent):
 def signature(case, obs, msg):
     if (msg or "").startswith("the non-ASCII method") and case["level"] == 3:
         return {"kind": "non-ascii-method-upper-cased-to-an-ascii-token"}
-    if case.get("then") and "after a failed request()" in (msg or ""):
+    if case.get("then") and case["level"] == 1 and "after a failed request()" in (msg or ""):
         return {"kind": "stale-buffer-after-failed-request"}
     return {"msg": (msg or "")[:50]}
 
@@ -516,6 +531,18 @@ def cases(rng, tier):
             out.append({"level": 1, "method": "GET", "url": "/first", "headers": before + [bad], "then": dict(nxt)})
     for m, u in (("GET", "/a b"), ("G ET", "/first"), ("GET", "/first\r\nX: 1"), ("POST", "/\u00e9")):
         out.append({"level": 1, "method": m, "url": u, "headers": [["X-A", "1"]], "then": dict(nxt)})
+    for level in (2, 3):
+        for bad in (["X-B", "bad\r\nvalue"], ["X B", "v"], ["X-\u00e9", "v"], ["X-B", "\u20ac"]):
+            for before in ([], [["X-Secret", "s3cr3t"]]):
+                for m in ("GET", "DELETE", "POST"):
+                    out.append({"level": level, "method": m, "url": "/first", "headers": before + [bad], "then": dict(nxt)})
+    for _ in range(200 if tier == "quick" else 4000):
+        c = one_case(rng)
+        c["level"] = rng.choice([2, 3])
+        if not c["url"].startswith("/"):
+            c["url"] = "/" + c["url"]
+        c["then"] = dict(nxt)
+        out.append(c)
     for _ in range(200 if tier == "quick" else 4000):
         c = one_case(rng)
         c["level"] = 1
